@@ -138,6 +138,12 @@ def run_impl(case):
                 stack.rehaRemote(dev(w[1]), haun(w[2]))
             elif op == "remove":
                 stack.removeRemote(dev(w[1]))
+            elif op == "setuid":          # behind the stack's back (or by another stack holding the same device)
+                dev(w[1]).uid = int(w[2])
+            elif op == "setname":
+                dev(w[1]).name = untok(w[2])
+            elif op == "setha":
+                dev(w[1]).ha = haun(w[2])
             elif op == "removeall":
                 stack.removeAllRemotes()
             else:
@@ -195,6 +201,17 @@ def oracle(case, out):
             continue
         res, st = parse(line)
         w = case["ops"][n - 1] if n else ["init"]
+        if w[0] in TAMPER:
+            # outside the histories of the property: only what must survive a direct assignment is checked here
+            # (indexes untouched, only that field of that device changed); what follows is compared with the model only
+            if prev is not None:
+                r, fld = int(w[1]), {"setuid": 0, "setname": 1, "setha": 2}[w[0]]
+                if any(st[k] != prev[k] for k in "UNH") or st["p"] != prev["p"]:
+                    return "step %d (%s): a direct assignment changed an index" % (n, " ".join(w))
+                for i, (a, b) in enumerate(zip(st["D"], prev["D"])):
+                    if a != b and (i != r or any(a[f] != b[f] for f in range(3) if f != fld)):
+                        return "step %d (%s): another device or field changed" % (n, " ".join(w))
+            return None
         why = check_state(st)
         if why:
             return "after step %d (%s): %s" % (n, " ".join(w), why)
@@ -240,6 +257,7 @@ def oracle(case, out):
     return None
 
 
+TAMPER = ("setuid", "setname", "setha")
 UIDS = ["1", "2", "3", "4", "5", "6"]
 NAMES = ["a", "b", "c", "Device2", "Device3", "Device5"]
 HAS = ["_", "x", "y", "z", "w"]
@@ -332,6 +350,16 @@ def gen(rng, n_ops, ip=False):
             for d in devs:
                 d[3] = False
             ops.append(["removeall"])
+    if not ip and devs and rng.random() < 0.12:
+        # a device changed behind the stack's back, then more calls (compared with the model only)
+        for _ in range(rng.choice([1, 1, 2])):
+            i = rng.randrange(len(devs))
+            f = rng.randrange(3)
+            ops.append([TAMPER[f], str(i), rng.choice([UIDS, NAMES, HAS][f])])
+            for _ in range(rng.randrange(1, 5)):
+                j = str(rng.randrange(len(devs)))
+                ops.append(rng.choice([["remove", j], ["add", j], ["move", j, rng.choice(UIDS)], ["rename", j, rng.choice(NAMES)],
+                                       ["reha", j, rng.choice(HAS)], ["removeall"]]))
     if pre:
         return {"init": init, "ops": ops, "pre": pre}
     return {"init": init, "ops": ops, "ip": True} if ip else {"init": init, "ops": ops}
@@ -361,7 +389,9 @@ class CHECK(core.Check):
                "the three indexes are odicts; they are modelled as the ordered dictionaries C39 proves odicts to be",
                "ValueError and NameError (removeRemote's 'not identical' message) both count as 'rejected'"]
     PARTIAL = ["devices changed behind the stack's back (remote.name = ..., local device fields changed later, one device "
-               "in two stacks) are outside the histories considered",
+               "in two stacks): modelled as the extra operations setuid/setname/setha (Tamper); C37_direct_assignment_survivors "
+               "states which index invariants survive, C37_counterexample_direct_assignment what is lost; such histories are "
+               "compared with the model (incl. removeRemote failing half way with KeyError) but are outside the property",
                "which calls must be accepted is proved on the model (C37_accepted_iff) and tied to the code by the "
                "correspondence; the Python oracle only constrains the result of a call",
                "Ip devices: host normalisation is a function parameter of the model applied where the code applies it "
@@ -464,7 +494,8 @@ class CHECK(core.Check):
         n = len(case["ops"])
         rej = sum(1 for l in out[1:] if l.startswith("REJECTED"))
         most = max([len(parse(l)[1]["U"]) for l in out if l != "bad-op"] or [0])
-        return "%s%s/%s/max-indexed=%s" % ("ip/" if case.get("ip") else "pre/" if case.get("pre") else "", "len<=6" if n <= 6 else "len7-15" if n <= 15 else "len16+",
+        return "%s%s%s/%s/max-indexed=%s" % ("tampered/" if any(w[0] in TAMPER for w in case["ops"]) else "",
+                                         "ip/" if case.get("ip") else "pre/" if case.get("pre") else "", "len<=6" if n <= 6 else "len7-15" if n <= 15 else "len16+",
                                          "no-reject" if rej == 0 else "rejects<=33%" if rej * 3 <= n else "rejects>33%",
                                          most if most < 3 else "3+")
 
